@@ -48,7 +48,7 @@ MORE = {
          "Fixpoint of real polling scanner x grammar generator (timeouts 0, 0.5 ms and 1.5 ms on quarter/half millisecond ticks, 2 ms, and five astronomically long timeouts that alias to zero under truncation) with early/late polls, ticks, long pauses and non-contributing messages anywhere; a two-channel product of two generators through one scanner; encode->feed->poll from every state of the C14 fixpoint x ~1000 messages x both byte orders; the hook is bound to the shipped build by an all-sequences transcript comparison with the real-clock build.",
          "Mock clock hook (add-only, cfg-guarded); byte-value abstraction; ages saturate at CAP.", "4 C12"),
  "C13": (True, MC, "explicit-state model checking of the real scanner x history observer under a mock clock, timeouts {0, 0.5 ms, 1.5 ms, 2 ms, 2^40 ms, five astronomically long}",
-         "Fixpoint over feeds (contributing and non-contributing), polls, resets, reset storms, clock ticks and long pauses (998, 1000, 2^20, 2^32-2, 2^32 ms); timeouts 0, 0.5 ms and 1.5 ms (quarter / half millisecond ticks), 2 ms, 2^40 ms, and 2^32 ms, 2^55 s, 2^58 s, 2^61 s, Duration::MAX (each aliases to zero under one truncating conversion); pumped cycles; further timeout classes 500 ns / 1500 ns / 1 s on matching clocks; a cross-target transcript (timeouts 2 ms and 10 s, pauses 4295 ms and 6 s) reproduced under Miri on i686 and s390x; rules R1-R5 judged on every transition; every feed re-executed at four later instants; one- and two-step concrete probes; CAP-doubling rerun and stateright cross-count in thorough.",
+         "Fixpoint over feeds (contributing and non-contributing), polls, resets, reset storms, clock ticks and long pauses (998, 1000, 2^20, 2^32-2, 2^32 ms); timeouts 0, 0.5 ms and 1.5 ms (quarter / half millisecond ticks), 2 ms, 2^40 ms, and 2^32 ms, 2^55 s, 2^58 s, 2^61 s, Duration::MAX (each aliases to zero under one truncating conversion); pumped cycles; further timeout classes 500 ns / 1500 ns / 1 s on matching clocks; a cross-target transcript (timeouts 2 ms and 10 s, pauses 4295 ms and 6 s) reproduced under Miri on i686 and s390x; finite timeouts (50 ms, 10 s) on the real clock with scheduling-independent margins; rules R1-R5 judged on every transition; every feed re-executed at four later instants; one- and two-step concrete probes; CAP-doubling rerun and stateright cross-count in thorough.",
          "Mock clock hook; byte-value abstraction with concretisation probes; age saturation (cross-checked by doubling).", "4 C13"),
  "C14": (True, MC, "explicit-state model checking of the real scanner x history observer (literal reading of the statement's clauses P1-P7)",
          "Same product as C13 (timeouts 0, 2 ms, 2^40 ms and the five astronomically long ones) with the no-fabrication / no-duplication / no-loss rules P1-P7; malformed and mixed-kind traffic, non-contributing traffic, reset storms and long pauses are part of the alphabet; timeout classes 500 ns / 1500 ns / 1 s; in every state feeds through a message type whose n-th getter call panics.",
